@@ -398,7 +398,8 @@ param_struct!(QVerbose { verbose: Option<bool>, level: u8 });
 param_struct!(BEnum { m: Mode, o: Option<Mode> });
 param_struct!(BOptInner { i: Option<Inner> });
 param_struct!(Form { a: String, b: Option<String> });
-param_struct!(Hdrs { x_count: u32, x_note: Option<String> });
+param_struct!(Hdrs { x_count: String, x_note: String });
+param_struct!(HdrsNum { x_num: u32 });
 
 #[derive(Serialize, Deserialize, JsonSchema, Clone, Debug)]
 struct QDflt {
@@ -580,7 +581,7 @@ async fn k_headers(
     let n = q.into_inner().n;
     Ok(HttpResponseHeaders::new(
         HttpResponseOk(pick::<Inner>(n)),
-        Hdrs { x_count: n.unwrap_or(3), x_note: n.map(|k| format!("note{}", k)) },
+        Hdrs { x_count: n.unwrap_or(3).to_string(), x_note: format!("note {:?}", n) },
     ))
 }
 #[endpoint { method = POST, path = "/k/headers_created" }]
@@ -590,8 +591,17 @@ async fn k_headers_created(
 ) -> Result<HttpResponseHeaders<HttpResponseCreated<NewU>, Hdrs>, HttpError> {
     Ok(HttpResponseHeaders::new(
         HttpResponseCreated(b.into_inner()),
-        Hdrs { x_count: 1, x_note: None },
+        Hdrs { x_count: "1".into(), x_note: "created".into() },
     ))
+}
+// a header struct with a non-string member (to_map refuses it: every response is a 500)
+#[endpoint { method = GET, path = "/k/headers_num" }]
+async fn k_headers_num(
+    _rq: Ctx,
+    q: Query<SampleQ>,
+) -> Result<HttpResponseHeaders<HttpResponseOk<Inner>, HdrsNum>, HttpError> {
+    let n = q.into_inner().n;
+    Ok(HttpResponseHeaders::new(HttpResponseOk(pick::<Inner>(n)), HdrsNum { x_num: n.unwrap_or(3) }))
 }
 // path + query + body together
 #[endpoint { method = PUT, path = "/c/{id}" }]
@@ -672,8 +682,16 @@ fn build_api() -> (ApiDescription<()>, Vec<Ep>) {
     reg_query!(q_opt, "/q/opt", QOpt);
     reg_query!(q_dflt, "/q/dflt", QDflt);
     reg_query!(q_rename, "/q/rename", Renamed);
-    reg_query!(q_flat, "/q/flat", Flat);
-    reg_query!(q_flatnum, "/q/flatnum", FlatNum);
+    reg!(q_flat, "get", "/q/flat", {
+        let mut v = d(None, Some(Flat::ty()), None, Some(Flat::ty()), "ok", None);
+        v["queryFlat"] = json!(["fx", "fy"]);
+        v
+    });
+    reg!(q_flatnum, "get", "/q/flatnum", {
+        let mut v = d(None, Some(FlatNum::ty()), None, Some(FlatNum::ty()), "ok", None);
+        v["queryFlat"] = json!(["fx", "fy"]);
+        v
+    });
     reg_query!(q_new, "/q/new", QNew);
     reg_query!(q_ints, "/q/ints", QInts);
     reg_query!(q_uuid, "/q/uuid", QUuid);
@@ -705,6 +723,8 @@ fn build_api() -> (ApiDescription<()>, Vec<Ep>) {
         d(None, Some(SampleQ::ty()), None, Some(Inner::ty()), "ok", Some(Hdrs::ty())));
     reg!(k_headers_created, "post", "/k/headers_created",
         d(None, None, Some((NewU::ty(), "json")), Some(NewU::ty()), "created", Some(Hdrs::ty())));
+    reg!(k_headers_num, "get", "/k/headers_num",
+        d(None, Some(SampleQ::ty()), None, Some(Inner::ty()), "ok", Some(HdrsNum::ty())));
     reg!(c_all, "put", "/c/{id}",
         d(Some(PU32::ty()), Some(QVerbose::ty()), Some((Outer::ty(), "json")), Some(Outer::ty()), "ok", None));
     reg!(b_form, "post", "/b/form", d(None, None, Some((Form::ty(), "form")), Some(Form::ty()), "ok", None));
